@@ -105,12 +105,10 @@ def _drive(coro: Any) -> Any:
     raise RuntimeError('pass awaited the runtime')
 
 
-def subst(x0: int, x1: int, x2: int, x3: int, x4: int, x5: int, x6: int, x7: int, x8: int, x9: int, x10: int,
-          x11: int, x12: int, x13: int, x14: int, x15: int, x16: int, x17: int, x18: int, x19: int, x20: int,
-          x21: int, s0: int, s1: int, s2: int, s3: int) -> bool:
-    """
-    post: _
-    """
+@rt.natively
+def _subst_body(x0: int, x1: int, x2: int, x3: int, x4: int, x5: int, x6: int, x7: int, x8: int, x9: int, x10: int,
+      x11: int, x12: int, x13: int, x14: int, x15: int, x16: int, x17: int, x18: int, x19: int, x20: int,
+      x21: int, s0: int, s1: int, s2: int, s3: int) -> bool:
     from bqskit.compiler.passdata import PassData
     from bqskit.ir.circuit import Circuit
     from harness.circ_common import Tags, build_pre
@@ -180,14 +178,21 @@ def subst(x0: int, x1: int, x2: int, x3: int, x4: int, x5: int, x6: int, x7: int
     return True
 
 
-# ---- (N) scanning gate removal control logic ------------------------------------------------
-
-def scan(x0: int, x1: int, x2: int, x3: int, x4: int, x5: int, x6: int, x7: int, x8: int, x9: int, x10: int,
-         x11: int, x12: int, x13: int, x14: int, x15: int, x16: int, x17: int, x18: int, x19: int, x20: int,
-         x21: int, b0: int, b1: int, b2: int, b3: int, f0: int, f1: int, f2: int, f3: int, left: int) -> bool:
+def subst(x0: int, x1: int, x2: int, x3: int, x4: int, x5: int, x6: int, x7: int, x8: int, x9: int, x10: int,
+          x11: int, x12: int, x13: int, x14: int, x15: int, x16: int, x17: int, x18: int, x19: int, x20: int,
+          x21: int, s0: int, s1: int, s2: int, s3: int) -> bool:
     """
     post: _
     """
+    return _subst_body(x0, x1, x2, x3, x4, x5, x6, x7, x8, x9, x10, x11, x12, x13, x14, x15, x16, x17, x18, x19, x20, x21, s0, s1, s2, s3)
+
+
+# ---- (N) scanning gate removal control logic ------------------------------------------------
+
+@rt.natively
+def _scan_body(x0: int, x1: int, x2: int, x3: int, x4: int, x5: int, x6: int, x7: int, x8: int, x9: int, x10: int,
+      x11: int, x12: int, x13: int, x14: int, x15: int, x16: int, x17: int, x18: int, x19: int, x20: int,
+      x21: int, b0: int, b1: int, b2: int, b3: int, f0: int, f1: int, f2: int, f3: int, left: int) -> bool:
     from bqskit.compiler.passdata import PassData
     from bqskit.ir.circuit import Circuit
     from bqskit.passes.processing.scan import ScanningGateRemovalPass
@@ -203,8 +208,8 @@ def scan(x0: int, x1: int, x2: int, x3: int, x4: int, x5: int, x6: int, x7: int,
     if circ is None:
         return True
     accept = [rt.P(b, 0, 1) for b in [b0, b1, b2, b3][:npre]]
-    collect = [rt.P(f, 0, 1) for f in [f0, f1, f2, f3][:npre]]
-    from_left = bool(rt.P(left, 0, 1))
+    collect = [1] * npre if S.get('collect_all') else [rt.P(f, 0, 1) for f in [f0, f1, f2, f3][:npre]]
+    from_left = bool(S['left']) if 'left' in S else bool(rt.P(left, 0, 1))
 
     def run() -> Any:
         import numpy as np
@@ -274,12 +279,19 @@ def scan(x0: int, x1: int, x2: int, x3: int, x4: int, x5: int, x6: int, x7: int,
     return True
 
 
-# ---- (A) analytic decompositions on the pi/4 grid -------------------------------------------
-
-def analytic(a: int, t: int, p: int, l: int) -> bool:
+def scan(x0: int, x1: int, x2: int, x3: int, x4: int, x5: int, x6: int, x7: int, x8: int, x9: int, x10: int,
+         x11: int, x12: int, x13: int, x14: int, x15: int, x16: int, x17: int, x18: int, x19: int, x20: int,
+         x21: int, b0: int, b1: int, b2: int, b3: int, f0: int, f1: int, f2: int, f3: int, left: int) -> bool:
     """
     post: _
     """
+    return _scan_body(x0, x1, x2, x3, x4, x5, x6, x7, x8, x9, x10, x11, x12, x13, x14, x15, x16, x17, x18, x19, x20, x21, b0, b1, b2, b3, f0, f1, f2, f3, left)
+
+
+# ---- (A) analytic decompositions on the pi/4 grid -------------------------------------------
+
+@rt.natively
+def _analytic_body(a: int, t: int, p: int, l: int) -> bool:
     rt.begin()
     S = rt.SHARD
     which = S['which']
@@ -343,6 +355,13 @@ def analytic(a: int, t: int, p: int, l: int) -> bool:
     return True
 
 
+def analytic(a: int, t: int, p: int, l: int) -> bool:
+    """
+    post: _
+    """
+    return _analytic_body(a, t, p, l)
+
+
 def obligations(tier: str) -> list[dict]:
     obs = []
     for name in RULES:
@@ -358,11 +377,23 @@ def obligations(tier: str) -> list[dict]:
             obs.append({'name': 'S/%s/W2/pre4' % name, 'func': 'subst', 'timeout': 2400,
                         'shard': {'rule': name, 'W': 2, 'npre': 4, 'codes': [1, 2], 'prepop': False}})
     if tier == 'quick':
-        obs.append({'name': 'N/scan/W2/pre3', 'func': 'scan', 'timeout': 200,
-                    'shard': {'W': 2, 'npre': 3, 'codes': [1, 2], 'prepop': False}})
+        for lf in (0, 1):
+            obs.append({'name': 'N/scan/W3/pre2/left%d' % lf, 'func': 'scan', 'timeout': 200,
+                        'shard': {'W': 3, 'npre': 2, 'codes': [1, 2], 'prepop': False, 'left': lf}})
+        # three gates, every accept pattern, both directions; the collection filter takes everything here
+        # (its patterns on three gates are in the thorough tier)
+        for lf in (0, 1):
+            obs.append({'name': 'N/scan/W2/pre3/collect-all/left%d' % lf, 'func': 'scan', 'timeout': 200,
+                        'shard': {'W': 2, 'npre': 3, 'codes': [1, 2], 'prepop': False, 'left': lf, 'collect_all': True}})
     else:
         obs.append({'name': 'N/scan/W3/pre3', 'func': 'scan', 'timeout': 3000,
                     'shard': {'W': 3, 'npre': 3, 'codes': [1, 2, 4]}})
+        for c0 in (0, 1):
+            for c1 in (0, 1):
+                for lf in (0, 1):
+                    obs.append({'name': 'N/scan/W2/pre3/pin%d%d/left%d' % (c0, c1, lf), 'func': 'scan', 'timeout': 600,
+                                'shard': {'W': 2, 'npre': 3, 'codes': [1, 2], 'prepop': False, 'left': lf,
+                                          'pin': {'0': c0, '5': c1}}})
         obs.append({'name': 'N/scan/W2/pre4', 'func': 'scan', 'timeout': 3000,
                     'shard': {'W': 2, 'npre': 4, 'codes': [1, 2], 'prepop': False}})
     for which in ('u3', 'zxzxz', 'zxzxz-rx', 'zxzxz-u1', 'zxzxz-rx-u1', 'calc_params'):
